@@ -92,6 +92,7 @@ func sameLifted(a, b *liftedResult) string {
 }
 
 func TestC25(t *testing.T) {
+	runWitnesses(t, "C25")
 	col := ev.New("C25", "rapid: accepted word w1 (configuration x mnemonic x biased fields, as C01) and a sibling w2 at the "+
 		"same address differing in exactly one operand field (rd, rs1, rs2, one immediate bit, shamt bit, CSR number bit, "+
 		"uimm bit, aq/rl, pred/succ) that is accepted as the same mnemonic. Checks: text starts with the mnemonic; loads "+
